@@ -793,6 +793,11 @@ MANIFEST_ENTRY = {
              'each per-element computation exactly the stack found at that multi-index and to put its result back there (unravel_ravel, batched_eq_loop, batched_exit_medium); trusted there: NumPy '
              'arithmetic / matmul act element-wise along the batch axis (exercised by the batch correspondence, incl. batches where only some elements have an evanescent gap, and by the '
              'index-map correspondence ravel / unravel vs NumPy). '
+             '(9) reversibility: Stokes relations r\' = -r, t t\' - r r\' = 1 for the generated Fresnel formulas (s and p); the same lossless layers in reverse order give the product with '
+             'its diagonal swapped (any depth), and seen from the exit side t\' = (eta_e/eta_0) t, |r\'| = |r|, t t\' - r r\' = conj(A00)/A00 (unit modulus; 1 for a bare interface), both polarisations; '
+             'a layer index-matched to the ambient in front of any stack changes A00, A10 by conjugate unit phases only. TRANSLATOR SOUNDNESS: the call-site items refuse a source in which a parameter '
+             'of multilayer_stack_rt is re-bound or modified other than by the three top-level normalisations (the ambient_index != 1 rewrite of C17-r6m2); module-wide fact: no in-place operator / '
+             'element store / mutating method / out= on a parameter or a possible alias of one in ANY function of thinfilm.py. '
              'CORRESPONDENCE ONLY: element-wise action along the batch axis (batched 1-D/N-D, real and absorbing = per-element loop); independence of call history (the same caller-owned ndarray '
              'evaluated repeatedly - s/p/s, two wavelengths, batched then element views - equals calls on fresh copies and is left unchanged).'),
     'note': ('Trusted: Lean kernel + standard axioms; the ast->Lean translator for the arithmetic subset; NumPy matmul / '
